@@ -9,23 +9,147 @@ HERE = os.path.dirname(os.path.dirname(os.path.abspath(__file__)))
 TB = ("Trusted: the analyser itself (resolver, IR normalisation, kind tables), validated by the "
       "self-validation corpus in the thorough tier; exit 2 on anything unrecognised. ")
 
+def E(level, ref, technique, text, note):
+    return dict(level=level, ref=ref, technique=technique, text=text, note=TB + note)
+
+
+NORM = "AST dataflow normalisation (aliases, copy propagation with staleness tracking, comparison canonicalisation)"
+
 CHECKS = {
-    "C01": dict(
-        level="other", ref="4/C01",
-        technique="AST dataflow normalisation + relational schema rules (IFT f_max instance), index-kind "
-                  "checker, order-only information-flow, heap structural rules",
-        text="Decides that SupervisedOPF.fit is a well-kinded instance of the image-foresting-transform schema "
+    "C01": E("other", "4/C01",
+             NORM + " + relational schema rules (IFT f_max instance) + index-kind checker + order-only "
+             "information-flow + heap structural rules",
+             "Decides that SupervisedOPF.fit is a well-kinded instance of the image-foresting-transform schema "
              "for the max-arc cost over a min-heap (seeding, removal bookkeeping, candidate, strict acceptance, "
              "predecessor/label propagation, benign-guard family), for every input at once because the rules are "
              "on the shape of the code. Optimality is the schema's published theorem, not decided.",
-        note=TB + "IFT optimality theorem (Falcao et al. 2004); heap rules are necessary conditions only."),
-    "C02": dict(
-        level="other", ref="4/C02",
-        technique="AST dataflow normalisation + relational schema rules (Prim instance, both-endpoints rule)",
-        text="Decides that the prototype search is an instance of Prim over the complete graph whose removal step "
+             "IFT optimality theorem (Falcao et al. 2004); heap rules are necessary conditions only."),
+    "C02": E("other", "4/C02",
+             NORM + " + relational schema rules (Prim instance, both-endpoints rule)",
+             "Decides that the prototype search is an instance of Prim over the complete graph whose removal step "
              "flags both endpoints of a cross-class tree arc, and that prototypes are re-seeded with cost 0 / own "
              "label. Minimality and uniqueness are Prim's theorem, not decided.",
-        note=TB + "Prim's theorem for any tie-breaking."),
+             "Prim's theorem for any tie-breaking."),
+    "C03": E("other", "4/C03",
+             NORM + " + best-so-far scan rules (exact bound, unconditional advance, sound early exit) + kinds",
+             "Decides that predict is the cost-ordered arg-min scan of max(cost, d) with an exact bound, an "
+             "unconditional advance, a sound exit test and label taken from the same node as the minimum; equality "
+             "with the exhaustive scan then follows from sortedness of the conquest order (C01).",
+             "sortedness of idx_nodes by cost is a run-time fact implied by C01's removal rule."),
+    "C04": E("other", "4/C04",
+             NORM + " + constant propagation through inlined helper + override-dominance rule; metric premise by "
+             "sympy normal forms",
+             "KNN clause decided structurally (label forcing in the final clustering dominates the strict acceptance "
+             "test); metric premise (zero self-distance, definedness) by algebra. The supervised clause is a "
+             "corollary of C01-C03 and is not decided separately.",
+             "induction over conquest order (roots own label, conquered copy the conqueror's)."),
+    "C05": E("other", "4/C05",
+             "typestate / pairing / mirror / index-algebra rules over the Heap methods' IR + client-side "
+             "improvement-guard rule at all H.update sites",
+             "Necessary structural conditions H1-H7 for priority-queue correctness plus client preconditions. "
+             "History semantics (extremal, exactly once) need an inductive invariant and are not decided.",
+             "necessary conditions only; not a proof over operation histories."),
+    "C06": E("translation_validation", "4/C06",
+             "ast -> algebraic tree translation of the 47 metric bodies + sympy normal-form equality against the "
+             "reference closed forms; registry/whitelist/constructor agreement by set comparison",
+             "Every metric body, with symbolic vector length, has the same real-arithmetic normal form as its "
+             "published closed form; registry keys = whitelist = 47 and each key maps to its own function; model "
+             "constructors forward the identifier. Covers every vector and length at once.",
+             "the 47 reference formulas in /verif/spec are the oracle; sympy's simplifier; numba compiles "
+             "whitelisted NumPy operations with NumPy semantics; real arithmetic = 'up to rounding'."),
+    "C07": E("other", "4/C07",
+             "interprocedural effect / ownership analysis over the call graph (writes through borrowed arrays, "
+             "mutable module state, nondeterminism sources)",
+             "No function reachable from a distance, fit or predict writes through a caller-owned array, reads "
+             "mutable module state or lets RNG/clock values flow anywhere but the logger - for every call history.",
+             "NumPy view/copy rules as documented; numba-compiled bodies have NumPy semantics."),
+    "C08": E("other", "4/C08",
+             "sympy normal forms (swap-invariance, y:=x substitution) + IEEE-sound sign-domain abstract "
+             "interpretation of sqrt/log/division operands + theorem table",
+             "Symmetry and zero self-distance are decided on the code's normal form for all vectors; finiteness by "
+             "a sign analysis that is sound in floating point; non-negativity and triangle inequality come from "
+             "the theorem table for the reference form that C06 shows the code equals.",
+             "axiom table fixed in /verif/spec; no overflow/underflow; published metric proofs."),
+    "C09": E("other", "4/C09",
+             "non-interference analysis: predict's write set vs read set (effect analysis), loop-carried "
+             "dependence check of the per-sample body, index-kind checker (batch position vs training index)",
+             "Earlier samples and earlier calls cannot influence a prediction: nothing predict writes is read by "
+             "predict, the per-sample body has no loop-carried state, and the batch position only selects the "
+             "query node.",
+             "field-sensitive but not element-sensitive effects; scratch arrays must be fully reset."),
+    "C10": E("other", "4/C10",
+             "selector-agreement rule over all arc-weight sites + RowId provenance (kind rule K6) + writer/reader "
+             "format table comparison",
+             "Necessary conditions: both arms of every arc-weight selector name the same ordered node pair, node "
+             "ids come from the caller's index array, the matrix builders index coherently, and what the writer "
+             "emits is what the extension's reader parses (exact float round trip). Bit-equality of two runs is "
+             "a run-time fact that follows, not decided.",
+             "np.savetxt default '%.18e' round-trips float64; loader dispatch by extension."),
+    "C11": E("other", "4/C11",
+             "order-type-only information-flow (taint) analysis of arc weights + sympy monotone-family check + "
+             "nominal-index kind rule",
+             "Rescaling clause decided soundly: weights reach only comparisons/max/min/stores, and the five "
+             "Euclidean identifiers are strictly increasing functions of one base term with g(0)=0. Permutation "
+             "clause: only the necessary 'indices are nominal' part.",
+             "strict monotonicity over the reals; distinct distances that round to the same float are outside "
+             "the tie-free premise."),
+    "C12": E("other", "4/C12",
+             NORM + " + k-NN insertion-scan schema (paired arrays) + accumulator-initialisation rule + sympy "
+             "normal forms of the pdf / normalisation / cost formulas",
+             "The scan keeps paired (distance, index) buffers, every accumulator is initialised before its loop, "
+             "read-out order/guards are right, and the density formulas equal the statement's. That the selected "
+             "neighbours are the k nearest follows from the scan schema by a loop invariant that is not proved.",
+             "insertion-scan loop invariant trusted."),
+    "C13": E("other", "4/C13",
+             NORM + " + relational schema rules (IFT f_min instance over a max-heap) + kinds + heap rules",
+             "Both clustering loops are instances of the f_min schema with colour guard, root lift before the cost "
+             "record, root/label/cluster copied from the conqueror, cluster counter = root discoveries; "
+             "propagate_labels reads the root's label.",
+             "IFT theorem for f_min (Rocha et al. 2009)."),
+    "C14": E("other", "4/C14",
+             NORM + " + k-NN scan schema (unguarded over all training nodes) + arg-max rule + sympy normal form of "
+             "the query density + sibling agreement",
+             "The scan ranges over every training node, density uses the stored constant/range, the answer is the "
+             "arg-max of min(cost, density) with label and cluster from the same neighbour.",
+             "insertion-scan loop invariant trusted."),
+    "C15": E("other", "4/C15",
+             "statement-order rule + IFT f_max schema rules + sibling isomorphism with SupervisedOPF.fit",
+             "Prototypes from labelled nodes, unlabeled nodes appended before the heap is sized, same competition "
+             "as supervised fit up to one listed extra statement (so the empty-unlabeled case is the same program).",
+             "IFT optimality theorem."),
+    "C16": E("other", "4/C16",
+             "best-so-far selection idiom rule (ascending candidates, strict comparison, sentinel outside the "
+             "criterion's range, winner reaches its use)",
+             "Control structure of both k-selection loops decided for all inputs: candidates ascending, criterion "
+             "computed on the model just built with k, strict improvement keeps the smallest k, sentinel cannot "
+             "be attained, best_k reaches the final build.",
+             "range table of the criteria (accuracy in [0,1], cut >= 0 finite)."),
+    "C17": E("other", "4/C17",
+             "alias/view analysis of the exchange statements + best-so-far rule + snapshot-installation rule + "
+             "predecessor-walk and filter rules",
+             "learn's exchanges are exact value swaps of paired rows, the snapshot is installed into the object, "
+             "the draw is a scalar; predict tracks the conqueror consistently; mark_nodes walks to the root; prune "
+             "filters X and Y by the same predicate.",
+             "NumPy view/copy rules; 'highest accuracy among iterations' as a number is not decided."),
+    "C18": E("other", "4/C18",
+             "def-use rules on the permutation/slices + writer/reader/parser table comparison + sibling agreement "
+             "of the three converters",
+             "One permutation drives X, Y, I with complementary slices of one bound after the seed call; merge "
+             "stacks in matching order; converters, loaders and parser agree on columns, keys, delimiters, header "
+             "and record layout.",
+             "np.savetxt/json.dump exactness for float32 values (library behaviour)."),
+    "C19": E("other", "4/C19",
+             "effect analysis (instance-state-only), pickling-by-reference rule over the registry's decorator "
+             "chains, whole-dict installation rule",
+             "All model state is instance state, save writes nothing and dumps self, load installs the whole dict, "
+             "every registry value is picklable by reference, no state filter exists.",
+             "pickle semantics as documented; functools.wraps preserves __qualname__/__module__."),
+    "C20": E("other", "4/C20",
+             "counting-kernel translation + sympy normal-form equality with the statement's definitions + "
+             "role (true vs predicted index) rule",
+             "Each measure's kernel and closing arithmetic equal the statement's formula for all label vectors; "
+             "bounds and '=1 iff all correct' are properties of that formula.",
+             "sympy; labels are 0..K-1 with every class present (the property's premise)."),
 }
 
 PENDING_REASON = "check not yet built in this commit (construction order: DESIGN.md 7.6); will be claimed when it lands"
